@@ -24,10 +24,14 @@ CommonDivisorWhy(a, b, g) ==
    SmallLen limbs are always decided by Euclid's algorithm on BigNat, larger ones only when no
    hint proves the claim. *)
 SmallLen == 48
+\* above LargeLen limbs Euclid on BigNat does not finish in any useful time: there a claim that no recorded gcd_ext
+\* result proves counts as not established (the gcd_ext calls of the same event are then wrong or panicked as well,
+\* so the event is a violation either way)
+LargeLen == 400
 GreatestOK(a, b, g, hints) ==
   IF Len(a.m) <= SmallLen /\ Len(b.m) <= SmallLen THEN g.m = Gcd(a.m, b.m)
   ELSE \/ \E h \in hints : BezoutOK(a, b, g, h.s, h.t)
-       \/ g.m = Gcd(a.m, b.m)
+       \/ (Len(a.m) <= LargeLen /\ Len(b.m) <= LargeLen /\ g.m = Gcd(a.m, b.m))
 
 \* gcd(a, b) = g
 GcdWhy(a, b, g, hints) ==
